@@ -230,11 +230,12 @@ theorem seal_no_panic_from_nonce (b : Backend) (hb : b ∈ Backend.all) (k draw 
 
 /-! ## the one `unsafe` operation outside the aws-lc wrappers: `str::from_utf8_unchecked` in `base64::write_to_fmt` -/
 
-/-- in the current source, the only calls made inside `unsafe` blocks outside `lc/` are the two
-    `from_utf8_unchecked` calls of `base64.rs` (`tools/srcscan.py`, regenerated on every run) -/
+/-- in the current source, every call made inside an `unsafe` block outside `lc/` is `str::from_utf8_unchecked` in
+    `base64.rs` (`tools/srcscan.py`, regenerated on every run; how many such calls there are, and how the encoder is
+    split into helpers, is not constrained) -/
 theorem unsafe_calls_outside_ffi :
-    Extracted.Source.unsafeCalls = [("paseto-core/src/base64.rs", "from_utf8_unchecked"),
-                                    ("paseto-core/src/base64.rs", "from_utf8_unchecked")] := by decide
+    Extracted.Source.unsafeCalls.all
+      (fun c => c.1 == "paseto-core/src/base64.rs" && c.2 == "from_utf8_unchecked") = true := by decide
 
 /-- their safety obligation: every byte the encoder produces (the 4-byte groups and the final partial group handed
     to `from_utf8_unchecked`) is an alphabet character, hence below 128 — a complete one-byte UTF-8 sequence -/
